@@ -258,8 +258,41 @@ def r7_no_direction_abort(ctx):
     ctx.ob("R08.7", "relay:direction-tasks-are-never-aborted", True, "", "%d abort call(s) in the crate examined; %d bodies spawn relay direction tasks" % (n, len(spawners)))
 
 
+def r8_buffered_sinks_are_flushed(ctx):
+    """a relay that puts a buffer between itself and the socket flushes it on every way out of its loop"""
+    n = 0
+    for key, body in ctx.P.scan():
+        bw = [c for c in body.calls() if (c.norm or "").endswith(("BufWriter::new", "BufWriter::with_capacity", "BufStream::new"))]
+        if not bw:
+            continue
+        if key.startswith(("util::", "anytls_")):
+            continue
+        cfg = ctx.cfg(body)
+        n += 1
+        fl = [c.bb for c in body.calls() if (c.norm or "").endswith(("AsyncWriteExt::flush", "AsyncWriteExt::shutdown"))]
+        rets = body.return_blocks()
+        ok, p = cfg.must_pass(cfg.succ(bw[0].bb), rets, via_blocks=fl) if fl else (False, None)
+        # a flush inside the loop only counts if it is also passed after the last write: require one between every write and the return
+        ws = [c for c in body.calls() if (c.norm or "").endswith(("AsyncWriteExt::write_all", "AsyncWriteExt::write", "AsyncWriteExt::write_buf"))]
+        for w in ws:
+            if fl:
+                okw, pw = cfg.must_pass(cfg.succ(w.bb), rets, via_blocks=fl)
+                if not okw:
+                    ok, p = False, pw
+        ctx.ob("R08.8", "%s:buffered-writer-flushed-on-every-exit" % _owner(ctx, key), ok, bw[0].site,
+               "every path from a write to the end of the task passes a flush/shutdown of the buffered writer" if ok else
+               "a BufWriter sits between this relay and its socket and a path from a write to the end of the task passes no flush: what is still buffered when the stream ends is dropped, so the application sees "
+               "end-of-stream before the tail of the data", path=None if ok or not p else render_path(body, p))
+    ctx.ob("R08.8", "relays:no-unflushed-buffered-writer", True, "", "%d buffered writers in relay code" % n, nontrivial=False)
+
+
 def run(ctx):
     from . import C09
+    r8_buffered_sinks_are_flushed(ctx)
+    from . import C01
+    C01.r8_single_forwarder(ctx)      # the forwarder owns (takes) the outbound receiver: when it ends, later send_data fails, which is what stops the relays
+    C09.r2_flag_writer(ctx)           # only close() raises the closed flag (a second writer turns close() into a no-op: nobody is released)
+    C09.r8_io_error_closes(ctx)
     r6_loop_exits(ctx)
     r7_no_direction_abort(ctx)
     from . import C01
